@@ -53,6 +53,13 @@ void ParticleSet::resize(const std::size_t components, const std::size_t dim_lin
 
 ParticleSet& ParticleSet::operator+=(const ParticleSet& rhs)
 {
+    /* The right-hand side is read after the left-hand side has been grown. */
+    if (this == &rhs)
+    {
+        const ParticleSet copy(rhs);
+        return (*this) += copy;
+    }
+
     /* Should check whether (this->dim_linear == rhs.dim_linear) &&
        (this->dim_circular == rhs.dim_circular). */
     std::size_t new_components = components + rhs.components;
